@@ -24,7 +24,7 @@ COQ_MODULES = ["C08_Check", "C08_Proofs"]
 PROPERTY_MODULE = "C08_Property"
 ALLOWED_AXIOMS = []
 RULE = (
-    "read: contents of 1-5 samples x 1-8 variants on 1-3 contigs (sorted, equal positions and multi-base REF alleles "
+    "read: contents of 1-5 samples x 0-8 variants on 1-3 contigs (sorted, equal positions and multi-base REF alleles "
     "occur), queries mixing region forms 'c', 'c:a-b', 'c:a-' with a/b on, between (+-1) and outside variant positions "
     "and absent contigs, sample subsets with unknown names, ID subsets with unknown IDs / no match / the empty set, "
     "max_variants 0..p+2, PGEN chunk sizes None,1..p+1. Non-trivial = the query restricts something (drops at least one "
@@ -55,6 +55,8 @@ ASSUMPTIONS = [
 def gen_content(rng, pmax=8, nmax=5):
     n = int(rng.integers(1, nmax + 1))
     p = int(rng.integers(1, pmax + 1))
+    if rng.random() < 0.04:
+        p = 0      # a file without variants
     samples = [f"s{j}" for j in rng.permutation(9)[:n].tolist()]
     contigs = sorted(rng.choice([1, 2, 3, 7, 10], size=int(rng.integers(1, 4)), replace=False).tolist())
     contigs = [("chr" if rng.random() < 0.2 else "") + str(c) for c in contigs]
@@ -98,7 +100,7 @@ def gen_query(rng, c):
     q = {"region": None, "samples": None, "ids": None, "max": None, "chunk": None}
     if rng.random() < 0.6:
         contigs = sorted({v[1] for v in c["variants"]})
-        ctg = str(rng.choice(contigs)) if rng.random() < 0.88 else str(rng.choice(["4", "chr9", "1x"]))
+        ctg = str(rng.choice(contigs)) if contigs and rng.random() < 0.88 else str(rng.choice(["4", "chr9", "1x"]))
         pos = [v[2] for v in c["variants"] if v[1] == ctg] or [5]
         pts = sorted({max(1, x + d) for x in pos for d in (-1, 0, 1)} | {1, max(pos) + 7})
         form = rng.choice(["c", "c:a-b", "c:a-b", "c:a-"])
@@ -120,7 +122,7 @@ def gen_query(rng, c):
         q["samples"] = s
     if rng.random() < 0.5:
         r = rng.random()
-        k = int(rng.integers(1, p + 1))
+        k = int(rng.integers(1, p + 1)) if p else 0
         s = [c["variants"][i][0] for i in rng.permutation(p)[:k].tolist()]
         if r < 0.3:
             s += ["nope", "v99"][: int(rng.integers(1, 3))]
@@ -183,6 +185,9 @@ def write_pgen(c, path):
         for v in c["variants"]:
             f.write(f"{v[1]}\t{v[2]}\t{v[0]}\t{v[3][0]}\t{','.join(v[3][1:])}\t.\t.\t.\n")
     n, p = len(c["samples"]), len(c["variants"])
+    if p == 0:
+        open(path, "wb").close()     # what plink2 / haptools leave for a file without variants
+        return
     limit = max(len(v[3]) for v in c["variants"])
     with pgenlib.PgenWriter(filename=path.encode(), sample_ct=n, variant_ct=p, allele_ct_limit=limit,
                             nonref_flags=False, hardcall_phase_present=True) as w:
@@ -270,6 +275,8 @@ def selects(c, q):
         out.append("max=" + ("0" if q["max"] == 0 else "<matches" if q["max"] < len(keep) else ">=matches"))
     if q["chunk"] is not None:
         out.append("chunk=" + ("1" if q["chunk"] == 1 else ">p" if q["chunk"] > len(vs) else "mid"))
+    if not vs:
+        out.append("p=0")
     if not keep:
         out.append("empty-match")
     restricts = len(keep) < len(vs) or (q["samples"] is not None and set(c["samples"]) - set(q["samples"])) \
